@@ -414,7 +414,10 @@ def _get_lambda_argument_columns(
                 ),
             )
 
-            assert len(argument_segments) == 1
+            if len(argument_segments) != 1:
+                # Not a lambda expression, e.g. `f(x) -> 'key'` in dialects
+                # where `->` is an operator too.
+                continue
             child_segment = argument_segments[0]
 
             if child_segment.is_type("bracketed"):
